@@ -79,8 +79,10 @@ def run(tier):
         ev.tlc(r, "dev " + name)
         devres[name] = bool(r["violated"])
     icfg = work + "/i.cfg"
-    for members in ["<<2, 1>>", "<<1, 1, 2>>"]:
-        write_cfg(icfg, spec="IFair", constants={"EofMidMemberAccepted": False, "DataErrorIgnored": False}, defs={"Members": members},
+    # members of 0 units are EMPTY members (a compressed empty input): leading, between two members, trailing; buffer of 2 units
+    IC = {"EofMidMemberAccepted": False, "DataErrorIgnored": False, "RefillStopsAtMemberEnd": False, "Cap": 2}
+    for members in ["<<2, 1>>", "<<1, 1, 2>>", "<<2, 0, 1>>", "<<0, 3>>", "<<1, 2, 0>>", "<<0, 0, 1>>"]:
+        write_cfg(icfg, spec="IFair", constants=IC, defs={"Members": members},
                   invariants=["Transparent", "TruncationReported", "NoSpin"], properties=["IEnds"], deadlock=False)
         r = run_tlc("XfrmIn", icfg, workers=2, timeout=300)
         ev.tlc(r, "XfrmIn members=%s" % members)
@@ -88,8 +90,9 @@ def run(tier):
             print("MODEL-FAILURE: XfrmIn violates %s" % r["violated"])
             ev.write()
             return 2
-    for name, acc, ign in [("EofMidMemberAccepted(pre-fix tree)", True, False), ("DataErrorIgnored(pre-fix gzip)", False, True)]:
-        write_cfg(icfg, spec="IFair", constants={"EofMidMemberAccepted": acc, "DataErrorIgnored": ign}, defs={"Members": "<<2, 1>>"},
+    for name, acc, ign, stop, mem in [("EofMidMemberAccepted(pre-fix tree)", True, False, False, "<<2, 1>>"), ("DataErrorIgnored(pre-fix gzip)", False, True, False, "<<2, 1>>"),
+                                      ("RefillStopsAtMemberEnd", False, False, True, "<<2, 0, 1>>")]:
+        write_cfg(icfg, spec="IFair", constants=dict(IC, EofMidMemberAccepted=acc, DataErrorIgnored=ign, RefillStopsAtMemberEnd=stop), defs={"Members": mem},
                   invariants=["Transparent", "TruncationReported", "NoSpin"], deadlock=False)
         r = run_tlc("XfrmIn", icfg, workers=2, timeout=300)
         ev.tlc(r, "dev " + name)
@@ -173,6 +176,11 @@ def run(tier):
             ijobs.append((codec, "members@%d" % c, parts, payload, "ok"))
         three = ref_compress(codec, payload[:100]) + ref_compress(codec, payload[100:70000]) + ref_compress(codec, payload[70000:])
         ijobs.append((codec, "3members", three, payload, "ok"))
+        empty = ref_compress(codec, b"")
+        ijobs.append((codec, "empty-member-first", empty + whole, payload, "ok"))
+        ijobs.append((codec, "empty-member-between", ref_compress(codec, payload[:70000]) + empty + ref_compress(codec, payload[70000:]), payload, "ok"))
+        ijobs.append((codec, "empty-members-between", ref_compress(codec, payload[:BUFSZ]) + empty + empty + ref_compress(codec, payload[BUFSZ:]), payload, "ok"))
+        ijobs.append((codec, "empty-member-last", whole + empty, payload, "ok"))
         ijobs.append((codec, "single", whole, payload, "ok"))
         for frac in ([0.5, 0.9] if tier == "quick" else [0.1, 0.3, 0.5, 0.7, 0.9, 0.99]):
             ijobs.append((codec, "truncated@%.2f" % frac, whole[:int(len(whole) * frac)], None, "error"))
@@ -222,7 +230,9 @@ def run(tier):
     refsha = vlib.fsha(ref)
     for codec in CODECS:
         variants = {"single": ref_compress(codec, tarb), "members": ref_compress(codec, tarb[:70000]) + ref_compress(codec, tarb[70000:]),
-                    "level9": ref_compress(codec, tarb, 9)}
+                    "level9": ref_compress(codec, tarb, 9),
+                    "empty-member-first": ref_compress(codec, b"") + ref_compress(codec, tarb),
+                    "empty-member-between": ref_compress(codec, tarb[:70000]) + ref_compress(codec, b"") + ref_compress(codec, tarb[70000:])}
         for name, comp in variants.items():
             out = work + "/t.sqfs"
             rc, o, e = sh([tools + "/tar2sqfs", "-q", "-f", "-c", "gzip", out], stdin=comp, timeout=60)
